@@ -144,7 +144,7 @@ class UnitRun:
                     for look in ([] if ident else self.lines[n - 1:n + 6]):
                         m = re.search(r"\b(fn|struct|spec fn)\s+([A-Za-z_0-9]+)", look)
                         if m:
-                            ident = m.group(2)
+                            ident = re.sub(r"__(strict|canary)$", "", m.group(2))
                             break
                     self.assumption_hits.append((tok, ident, n))
         unknown = []
@@ -238,6 +238,11 @@ class UnitRun:
                 continue
             if "rlimit" in msg.lower() or "resource limit" in msg.lower():
                 fn = self.fn_at(pl)
+                if fn and fn[3]["mode"] in ("strict", "canary"):
+                    # a twin that is expected not to verify: running out of resources is "did not verify"
+                    self.failures.append({"message": msg, "line": pl, "rendered": m.get("rendered", "")[:600], "spans": [],
+                                          "fn": fn[2], "fn_info": fn[3], "labels": None, "kind": "rlimit"})
+                    continue
                 self.rlimit_hits.append(fn[2] if fn else f"line {pl}")
                 continue
             # which function does it belong to?  the body-side span decides.
@@ -364,7 +369,7 @@ def check_property(pid, tier="quick", seed=0):
     if not unames:
         raise Undecided(f"no unit carries obligations for {pid}")
     use_cache = tier == "quick" and os.environ.get("VERIF_NO_CACHE") != "1"
-    runs = [UnitRun(n, tier, rlimit=(40 if tier == "thorough" else None),
+    runs = [UnitRun(n, tier, rlimit=(max(40, 2 * units[n].rlimit) if tier == "thorough" else (units[n].rlimit or None)),
                     extra_args=(["--smt-option", f"smt.random_seed={seed % 1000}"] if tier == "thorough" else []),
                     use_cache=use_cache) for n in unames]
     problems = []        # reasons the verifier's verdict cannot be trusted as a whole (-> undecided)
